@@ -13,7 +13,7 @@ REQUIRED_MONITORS = ["impulse-pairs(cov_mm)", "impulse-pairs(cov_R)", "definitio
                      "bilinearity(cov_mm)", "bilinearity(cov_R)", "result.H@SSIcov", "result.H@SSIdat"]
 ALL_STATES = [f"l={l}" for l in range(1, 5)] + [f"br={b}" for b in range(1, 6)] + ["ref=subset", "ref=all", "ref unordered"]
 REQUIRED_STATES = [f"l={l}" for l in range(1, 5)] + [f"br={b}" for b in range(1, 6)] + ["ref=subset", "Yref is Y (same object)", "same instance re-run with another ref_ind",
-                                                                                                 "integer-typed records", "ordmax above br * (number of references)", "matrix requested together with the uncertainty factor"]
+                                                                                                 "integer-typed records", "ordmax above br * (number of references)", "matrix requested together with the uncertainty factor", "one run-parameter object shared by SSIdat and SSIcov"]
 RULE = ("(a) exhaustive over a basis: for every channel count 1..4, every reference subset, br 1..5 and the listed record lengths, build_hank "
         "is evaluated on ALL pairs of unit impulses (e_{a,s}, e_{b,t}); each pair must light exactly the cells (i,a;j,b) with lag i+j+1 "
         "(cov_mm) / br+i-j (cov_R) with the uniform weight, nothing else; (b) random data, shapes up to 8 channels / br 12 / 400 samples "
@@ -287,6 +287,34 @@ def run_classes(ctx, rng):
             ctx.ev("result.H@SSIcov")
             ctx.check(np.shape(H) == E.shape and np.max(np.abs(H - E)) <= 1e-10 * np.max(np.abs(E)), f"cls:{method}:H_stale_or_wrong_after_ref_ind_change",
                       lambda: f"SSIcov(method={method}) re-run with ref_ind={ref_now}: result.H {np.shape(H)} is not the matrix of the current reference set")
+    # one run-parameter object configuring both a data-driven and a covariance-driven analysis (method left at each class's default)
+    if rng.random() < 0.5:
+        from pyoma2.algorithms.data.run_params import SSIRunParams
+        for first in (SSIdat, SSIcov):
+            second = SSIcov if first is SSIdat else SSIdat
+            rp = SSIRunParams(br=br, ordmax=min(4, br * l, (br + 1) * l - 1))
+            ss = SingleSetup(data.copy(), 100.0)
+            a1, a2 = first(name="one", run_params=rp), second(name="two", run_params=rp)
+            ss.add_algorithms(a1, a2)
+            ss.run_all()
+            Y = data.T.astype(float)
+            for alg in (a1, a2):
+                H = alg.result.H
+                ctx.ev("result.H@SSIcov" if isinstance(alg, SSIcov) else "result.H@SSIdat")
+                if isinstance(alg, SSIcov):
+                    E = def_cov_mm(Y, Y, br)
+                    ctx.check(np.shape(H) == E.shape and np.max(np.abs(H - E)) <= 1e-10 * np.max(np.abs(E)), "cls:shared_run_params:H_not_of_the_class_method",
+                              f"SSIcov sharing its run-parameter object with an SSIdat (constructed {'after' if first is SSIdat else 'before'} it): result.H is not the moment matrix")
+                else:
+                    p_, q_ = br, br + 1
+                    N_ = Y.shape[1] - p_ - q_
+                    Yf = np.vstack([Y[:, q_ + 1 + i: N_ + q_ + i] for i in range(p_ + 1)]) / np.sqrt(N_)
+                    Yp = np.vstack([Y[:, q_ - j: N_ + q_ - 1 - j] for j in range(q_)]) / np.sqrt(N_)
+                    P = Yf @ Yp.T @ np.linalg.solve(Yp @ Yp.T, Yp)
+                    E = P @ P.T
+                    ctx.check(np.shape(H) == ((br + 1) * l, (br + 1) * l) and np.max(np.abs(H @ H.T - E)) <= 1e-8 * np.max(np.abs(E)), "cls:shared_run_params:H_not_of_the_class_method",
+                              f"SSIdat sharing its run-parameter object with an SSIcov (constructed {'before' if first is SSIdat else 'after'} it): Gram matrix of result.H is not the projection's")
+        ctx.state("one run-parameter object shared by SSIdat and SSIcov")
     ctx.state("same instance re-run with another ref_ind")
     ctx.nontrivial(("classes", l, tuple(refidx), br))
 
